@@ -29,6 +29,7 @@ import (
 	"github.com/rulego/streamsql/logger"
 	"github.com/rulego/streamsql/metrics"
 	"github.com/rulego/streamsql/types"
+	"github.com/rulego/streamsql/verifhook"
 	"github.com/rulego/streamsql/window"
 )
 
@@ -266,8 +267,10 @@ func (s *Stream) Stop() {
 		return // Already stopped, return directly
 	}
 	s.startMu.Unlock()
+	verifhook.At("stop.cas", s, 0, 0, 0)
 
 	close(s.done)
+	verifhook.At("stop.done", s, 0, 0, 0)
 
 	// Stop window operations first to prevent new window triggers
 	if s.Window != nil {
@@ -278,6 +281,7 @@ func (s *Stream) Stop() {
 	s.dataChanMux.Lock()
 	s.dataChan = nil
 	s.dataChanMux.Unlock()
+	verifhook.At("stop.nil", s, 0, 0, 0)
 
 	// Stop and clean up data processing strategy resources
 	if s.dataStrategy != nil {
@@ -292,6 +296,7 @@ func (s *Stream) Stop() {
 	// kill), so it is abandoned after the grace rather than hanging the caller
 	// (e.g. a rulego component Destroy).
 	s.waitLifecycle()
+	verifhook.At("stop.joined", s, 0, 0, 0)
 
 	// 停止 CEP sweeper：数据处理 goroutine 已 join，不再有并发 Process；紧接的 Flush 看到静止引擎。
 	if s.cep != nil {
@@ -309,6 +314,7 @@ func (s *Stream) Stop() {
 	if s.tables != nil {
 		s.tables.closeAll()
 	}
+	verifhook.At("stop.ret", s, 0, 0, 0)
 }
 
 // RegisterTableSource registers a custom table source for stream-table JOIN.
